@@ -37,7 +37,7 @@ CLAIMED = {
  "C17": dict(text=GEN + "Partial: six-day star incl. leap months, moon phase, minor Ren, month nine star, 28 mansions (+1 per day, luminary = weekday), day officer, Yellow/Black-path spirits for days and hours — engine B over the real index arithmetic for all inputs. flying nine star of the year (quick: five 360-year windows, thorough: every year -1..9999), of the hour, and of the day (turning at the Jiazi days nearest the solstices; for the dates before a civil year's first turning day the check reports a known finding: the code counts back from that day and the star jumps on January 1 after a 240-day run).",
              note="Assumes: object-model axioms A-index, A-pillar; weekday and day pillar as functions of the day number from C07.",
              technique=ENGB),
- "C16": dict(text=GEN + "Partial: the seconds -> (years, months, days, hours, minutes) conversions of the Default, China95 and LunarSect2 strategies for every difference up to 32 days and of LunarSect1 (days and double hours; hours 0..22), and the calendar addition of AbstractChildLimitProvider::next (clock carries, day overflow through arbitrary month lengths with the loop bound proved, start month, month steps); the forward/backward rule and which Jie governs; decade and yearly fortunes (indices, ages, years, month/hour pillar stepped by +-1 in the direction of luck, next(n)) — engine B on the compiler's MIR with overflow asserts proved. Not covered: LunarSect1 at hour 23, months with missing days, which term an instant belongs to.",
+ "C16": dict(text=GEN + "Partial: the seconds -> (years, months, days, hours, minutes) conversions of the Default, China95 and LunarSect2 strategies for every difference up to 32 days and of LunarSect1 (days and double hours), and the calendar addition of AbstractChildLimitProvider::next (clock carries, day overflow through arbitrary month lengths with the loop bound proved, start month, month steps); the forward/backward rule and which Jie governs; decade and yearly fortunes (indices, ages, years, month/hour pillar stepped by +-1 in the direction of luck, next(n)) — engine B on the compiler's MIR with overflow asserts proved. Not covered: months with missing days, which term an instant belongs to.",
              note="Assumes: the difference to the governing Jie is arbitrary within +-32 days (ENV-J); month lengths arbitrary 21..31 and months as ordinals 12y+m-1 (C01/C11); SolarTime getters within their invariant ranges (C12 12.0).",
              technique=ENGB),
  "C02": dict(text=GEN + "Partial: lunar before/after = chronological order (year, index in year, day) including a month vs its leap twin, for any leap month; LunarDay::new accepts exactly day 1..day count; LunarMonth::new invariant — engine B, counterexamples realised on a real year with that leap month. the civil -> lunar walk and its inverse under an abstract tiling month table (round trips and consecutive-day mapping hold wherever the real table tiles). Not covered: that the real new-moon table tiles (it has known gaps in AD 9-25 and AD 240).",
